@@ -497,11 +497,13 @@ func (e *Engine) nodeText(from, to token.Pos) string {
 	return normSpace(t)
 }
 
-// sourceNames maps source-level variable names to SSA values: either the cell (Alloc) that
-// holds an address-taken variable, or the register value seen by a DebugRef.
+// sourceNames maps source-level variable names to SSA values: the cell (Alloc) that holds an
+// address-taken variable, or the SSA versions (phis carrying the name, values seen by DebugRefs)
+// of a register variable. The version that reaches a program point is chosen by dominance.
 type nameRef struct {
 	val  ssa.Value
 	cell bool
+	vals []ssa.Value
 }
 
 func (e *Engine) sourceNames(fn *ssa.Function) map[string]nameRef {
@@ -509,36 +511,111 @@ func (e *Engine) sourceNames(fn *ssa.Function) map[string]nameRef {
 		return m
 	}
 	m := map[string]nameRef{}
+	add := func(name string, v ssa.Value) {
+		nr := m[name]
+		if nr.cell {
+			return
+		}
+		for _, x := range nr.vals {
+			if x == v {
+				return
+			}
+		}
+		nr.vals = append(nr.vals, v)
+		if nr.val == nil {
+			nr.val = v
+		}
+		m[name] = nr
+	}
 	for _, b := range fn.Blocks {
 		for _, ins := range b.Instrs {
 			switch i := ins.(type) {
 			case *ssa.Alloc:
 				c := i.Comment
 				if c != "" && !strings.Contains(c, " ") && !strings.Contains(c, ".") && c != "new" && c != "complit" && c != "varargs" && c != "slicelit" && c != "makeslice" && c != "selectres" {
-					m[c] = nameRef{i, true}
+					m[c] = nameRef{val: i, cell: true}
 				}
 			}
 		}
 	}
 	for _, b := range fn.Blocks {
 		for _, ins := range b.Instrs {
-			if d, ok := ins.(*ssa.DebugRef); ok && !d.IsAddr {
-				id, ok := d.Expr.(*ast.Ident)
+			switch i := ins.(type) {
+			case *ssa.Phi:
+				if i.Comment != "" && i.Comment != "rangeindex" && !strings.Contains(i.Comment, " ") {
+					add(i.Comment, i)
+				}
+			case *ssa.DebugRef:
+				if i.IsAddr {
+					continue
+				}
+				id, ok := i.Expr.(*ast.Ident)
 				if !ok {
 					continue
 				}
-				if old, seen := m[id.Name]; seen && (old.cell || old.val != d.X) {
+				if _, isConst := i.X.(*ssa.Const); isConst {
 					continue
 				}
-				if _, isConst := d.X.(*ssa.Const); isConst {
-					continue
-				}
-				m[id.Name] = nameRef{d.X, false}
+				add(id.Name, i.X)
 			}
 		}
 	}
 	e.nameCache[fn] = m
 	return m
+}
+
+// reaching picks the SSA version of a named variable that reaches the start (or, with atEnd, the
+// end) of block at: the candidate whose definition dominates the point and is dominated by every
+// other such candidate.
+func reaching(nr nameRef, at *ssa.BasicBlock, atEnd bool) ssa.Value {
+	if at == nil || len(nr.vals) <= 1 {
+		return nr.val
+	}
+	defBlock := func(v ssa.Value) *ssa.BasicBlock {
+		if ins, ok := v.(ssa.Instruction); ok {
+			return ins.Block()
+		}
+		return at.Parent().Blocks[0]
+	}
+	pos := func(v ssa.Value) int {
+		ins, ok := v.(ssa.Instruction)
+		if !ok {
+			return -1
+		}
+		for k, x := range ins.Block().Instrs {
+			if x == ins {
+				return k
+			}
+		}
+		return -1
+	}
+	var best ssa.Value
+	for _, v := range nr.vals {
+		db := defBlock(v)
+		if db == at {
+			if _, isPhi := v.(*ssa.Phi); !isPhi && !atEnd {
+				continue // defined later in the same block
+			}
+		} else if !db.Dominates(at) {
+			continue
+		}
+		if best == nil {
+			best = v
+			continue
+		}
+		bb := defBlock(best)
+		if bb == db {
+			if pos(v) > pos(best) {
+				best = v
+			}
+		} else if bb.Dominates(db) {
+			best = v
+		}
+	}
+	if best == nil {
+		return nr.val
+	}
+	return best
 }
 
 // autoPure: mechanically established purity — the body writes no escaping memory, spawns nothing
